@@ -15,7 +15,10 @@ VERIF_DIR = os.path.dirname(os.path.dirname(os.path.abspath(__file__)))
 EVIDENCE_DIR = os.environ.get("VF_EVIDENCE_DIR") or os.path.join(VERIF_DIR, "evidence")
 REPLAY_DIR = os.environ.get("VF_REPLAY_DIR") or os.path.join(VERIF_DIR, "replays")
 KNOWN_FINDINGS = os.path.join(VERIF_DIR, "known_findings.json")
-REPO = "/repo"
+# The library under test is /repo's working tree.  VF_REPO exists for the mutant tooling only
+# (vf.seeded_tool detect --worktree points it at a scratch worktree holding a seeded change, so
+# that /repo itself stays untouched while a long run is using it); registered commands never set it.
+REPO = os.environ.get("VF_REPO", "/repo")
 
 U32 = 2**32 - 1
 U64 = 2**64 - 1
